@@ -424,6 +424,8 @@ def model_check(rep, tier):
     r = run_tlc(wd, "MacroReplay", cfg="MC_MacroReplay_pinned.cfg", workers=4, timeout=600)
     if r.violation is None or "ReplayBounded" not in r.violation:
         raise Infra("the pinned shape of MacroReplay should violate ReplayBounded (model self-test): %s" % r.violation)
+    import p_c08
+    p_c08.hist_sources_model(rep, tier, wd)
     rep.notes.append("MacroReplay pinned shape: TLC finds the self-calling macro (ReplayBounded violated at depth %s), as expected" % r.depth)
 
 
